@@ -12,8 +12,8 @@ theorem log2_eq (fm : Bool) (x : Nat) :
     log2 fm x = add (mul (hornerF fm ((x % 8388608) + C.log2_f0) LcBits) (sub ((x % 8388608) + C.log2_f0) C.log2_f7))
       (ofInt ((((x / 8388608) % 256 : Nat) : Int) - (C.log2_i3 : Int))) := rfl
 
-/-- polynomial certificate: `|(m-1) L(m) - log₂ m| ≤ 8.6e-6` on `[1, 2]` -/
-theorem cert_log : logCheck Lq (86 / 10 ^ 7) 8 = true := by decide +kernel
+/-- polynomial certificate: `|(m-1) L(m) - log₂ m| ≤ 8.8e-6` on `[1, 2]` -/
+theorem cert_log : logCheck Lq (88 / 10 ^ 7) 8 = true := by decide +kernel
 
 /-- per-piece Horner certificate on `m ∈ [1 + j/16, 1 + (j+1)/16]` -/
 def pieceOk (j : Nat) : Bool :=
@@ -146,7 +146,7 @@ theorem horner_stage (fm : Bool) (a : Nat) (ha : Finite a) (hm1 : 1 ≤ toReal a
 /-- the product stage: `fl(poly * (mant - 1))` against `log₂ mant` -/
 theorem pm_stage (fm : Bool) (a : Nat) (ha : Finite a) (hm1 : 1 ≤ toReal a) (hm2 : toReal a < 2) :
     Finite (mul (hornerF fm a LcBits) (sub a C.log2_f7)) ∧
-    |toReal (mul (hornerF fm a LcBits) (sub a C.log2_f7)) - Real.logb 2 (toReal a)| ≤ 11101 / 10 ^ 9 := by
+    |toReal (mul (hornerF fm a LcBits) (sub a C.log2_f7)) - Real.logb 2 (toReal a)| ≤ 11301 / 10 ^ 9 := by
   obtain ⟨_, _, c7f, c7v, c7w⟩ := cert_consts
   have hu' : u = 1 / 16777216 := u_val
   have he' : eta ≤ 1 / 10 ^ 40 := eta_le
@@ -174,7 +174,7 @@ theorem pm_stage (fm : Bool) (a : Nat) (ha : Finite a) (hm1 : 1 ≤ toReal a) (h
   have hme' : |pm - ph * th| ≤ (1 / 16777216) * |ph * th| + 1 / 10 ^ 40 := by
     rw [abs_mul, ← hu']; linarith
   have hG := pm_err ph th pm Lm m E xh (by norm_num) hperr hte' hme' hm1 hmx hxh2 hLabs hE0 hE4 hEx
-  have hc := logCheck_sound Lq (86 / 10 ^ 7) 8 (by norm_num) cert_log m hm1 hm2.le
+  have hc := logCheck_sound Lq (88 / 10 ^ 7) 8 (by norm_num) cert_log m hm1 hm2.le
   have hGof : evalR (Gof Lq) m = Lm * (m - 1) := by
     unfold Gof; rw [evalR_mulP]; simp only [evalR_cons, evalR_nil]; push_cast; ring
   rw [hGof] at hc
@@ -186,8 +186,8 @@ theorem pm_stage (fm : Bool) (a : Nat) (ha : Finite a) (hm1 : 1 ≤ toReal a) (h
 
 /-- last step over the reals -/
 theorem final_add (res pm ev lg : ℝ) (hre : |res - (pm + ev)| ≤ (1 / 16777216) * |pm + ev| + 1 / 10 ^ 40)
-    (hpl : |pm - lg| ≤ 11101 / 10 ^ 9) : |res - (lg + ev)| ≤ 112 / 10 ^ 7 + (1 / 16777216) * |lg + ev| := by
-  have hsum : |pm + ev| ≤ |lg + ev| + 11101 / 10 ^ 9 := by
+    (hpl : |pm - lg| ≤ 11301 / 10 ^ 9) : |res - (lg + ev)| ≤ 114 / 10 ^ 7 + (1 / 16777216) * |lg + ev| := by
+  have hsum : |pm + ev| ≤ |lg + ev| + 11301 / 10 ^ 9 := by
     have e : pm + ev = (lg + ev) + (pm - lg) := by ring
     rw [e]; exact le_trans (abs_add_le _ _) (by linarith)
   have e : res - (lg + ev) = (res - (pm + ev)) + (pm - lg) := by ring
@@ -195,10 +195,10 @@ theorem final_add (res pm ev lg : ℝ) (hre : |res - (pm + ev)| ≤ (1 / 1677721
   refine le_trans (abs_add_le _ _) ?_
   nlinarith [abs_nonneg (lg + ev)]
 
-/-- **`log2` on every positive normal argument**: within `1.12e-5 + 2^-24 |log₂ x|` of the real logarithm -/
+/-- **`log2` on every positive normal argument**: within `1.14e-5 + 2^-24 |log₂ x|` of the real logarithm -/
 theorem log2_close (fm : Bool) (x : Nat) (h1 : 8388608 ≤ x) (h2 : x < 2139095040) :
     Finite (log2 fm x) ∧
-    |toReal (log2 fm x) - Real.logb 2 (toReal x)| ≤ 112 / 10 ^ 7 + (1 / 16777216) * |Real.logb 2 (toReal x)| := by
+    |toReal (log2 fm x) - Real.logb 2 (toReal x)| ≤ 114 / 10 ^ 7 + (1 / 16777216) * |Real.logb 2 (toReal x)| := by
   obtain ⟨c0, c3, _, _, _⟩ := cert_consts
   have hu' : u = 1 / 16777216 := u_val
   have he' : eta ≤ 1 / 10 ^ 40 := eta_le
